@@ -157,7 +157,7 @@ fn check_large(l: &Large) -> CaseResult {
     match got {
         Ok(d) => ensure!(
             d == want,
-            "entry=sm3_hash input=len>=2^29 outcome=wrong-digest",
+            if n >= 1 << 29 { "entry=sm3_hash input=len>=2^29 outcome=wrong-digest" } else { "entry=sm3_hash outcome=wrong-digest" },
             "len={} library={} reference={}",
             n,
             hex::encode(d),
@@ -254,9 +254,17 @@ pub fn run(ctx: &Ctx) {
         "large_messages",
         "messages whose bit length does not fit in 32 bits",
         || match ctx.tier {
-            Tier::Quick => vec![Large { len: (1 << 29) + 3, mul: 31 }],
+            Tier::Quick => {
+                // every bit 3..=28 of the 64-bit length field set at least once, then the >32-bit case
+                let mut v: Vec<Large> = (7..=22).map(|k| Large { len: 1u64 << k, mul: k as u8 }).collect();
+                v.push(Large { len: (1 << 26) - 1, mul: 3 });
+                v.push(Large { len: (1 << 29) + 3, mul: 31 });
+                v
+            }
             Tier::Thorough => vec![
+                Large { len: (1 << 26) - 1, mul: 3 },
                 Large { len: (1 << 29) + 3, mul: 31 },
+                Large { len: (1 << 29) + (1 << 28) + (1 << 27) + (1 << 26) + 3, mul: 11 },
                 Large { len: 1 << 29, mul: 7 },
                 Large { len: (1 << 29) + 56, mul: 13 },
                 Large { len: (1u64 << 32) + 1, mul: 5 },
